@@ -3,6 +3,7 @@
   The monitored relations `Spec.SC.C10.*` hold between the reports of the model before and after
   every operation, for every reachable state (every operation sequence).
 -/
+import Kvass.Pins.Sidecar
 import Kvass.Proofs.Sidecar
 
 namespace Kvass.Props.C10
